@@ -2,10 +2,14 @@ package props
 
 import (
 	"bytes"
+	"context"
 	"errors"
 	"flag"
 	"fmt"
+	"io"
+	"os"
 	"strings"
+	"syscall"
 	"testing"
 
 	"github.com/google/go-tdx-guest/abi"
@@ -26,6 +30,7 @@ type scriptDev struct {
 	status       uint64
 	outLen       uint32
 	untouched    bool // the device reports success but writes nothing back (OutLen, Status, Data stay as sent)
+	errWrites    bool // a failing quote request has nevertheless filled the buffer (status 0, valid OutLen) before failing
 	sawOutLen    []uint32
 	tdReport     [labi.TdReportSize]byte
 	data         []byte // what the device writes into the buffer (len <= ReqBufSize)
@@ -68,6 +73,11 @@ func (d *scriptDev) Ioctl(command uintptr, arg any) (uintptr, error) {
 		d.sawLength = append(d.sawLength, req.Length)
 		d.sawOutLen = append(d.sawOutLen, hdr.OutLen)
 		if d.quoteErr != nil {
+			if d.errWrites {
+				copy(hdr.Data[:], d.data)
+				hdr.OutLen = d.outLen
+				hdr.Status = d.status
+			}
 			return 0, d.quoteErr
 		}
 		if d.untouched {
@@ -82,7 +92,12 @@ func (d *scriptDev) Ioctl(command uintptr, arg any) (uintptr, error) {
 	return 0, errors.New("unexpected request")
 }
 
+// c15Errors are the error values a failing request returns: whatever its kind, a failed request is a failed request.
+var c15Errors = []error{errors.New("scripted failure"), syscall.EINTR, fmt.Errorf("ioctl: %w", syscall.EINTR), syscall.EAGAIN, syscall.EBUSY, syscall.ENOTTY, io.EOF, os.ErrDeadlineExceeded, context.Canceled, &os.PathError{Op: "ioctl", Path: "/dev/tdx_guest", Err: syscall.EINTR}}
+
 type c15Cell struct {
+	errKind    int  // index into c15Errors for failing requests
+	errWrites  bool // see scriptDev.errWrites
 	untouched  bool
 	rErr, qErr bool
 	rRes, qRes uintptr
@@ -128,12 +143,12 @@ func c15RunCell(c c15Cell, s *gen.Stream, validQuote bool) (key, oracle, detail 
 		// nothing is written back: the request's own (initial) status 0 and OutLen 0 stay in force
 		c.status, c.outLen = 0, 0
 	}
-	d := &scriptDev{reportResult: c.rRes, quoteResult: c.qRes, status: c.status, outLen: c.outLen, untouched: c.untouched}
+	d := &scriptDev{reportResult: c.rRes, quoteResult: c.qRes, status: c.status, outLen: c.outLen, untouched: c.untouched, errWrites: c.errWrites}
 	if c.rErr {
-		d.reportErr = errors.New("scripted report failure")
+		d.reportErr = c15Errors[c.errKind%len(c15Errors)]
 	}
 	if c.qErr {
-		d.quoteErr = errors.New("scripted quote failure")
+		d.quoteErr = c15Errors[c.errKind%len(c15Errors)]
 	}
 	s.Fill(d.tdReport[:])
 	d.data = s.Bytes(labi.ReqBufSize)
@@ -280,6 +295,7 @@ func TestC15(t *testing.T) {
 			s := gen.NewStream(gen.ProcSeed()+uint64(rep)*7919, "c15")
 			for i, c := range cells {
 				valid := (i+rep)%2 == 0
+				c.errKind, c.errWrites = (i/2+rep)%len(c15Errors), (i/3+rep)%2 == 0
 				key, oracle, detail := c15RunCell(c, s, valid)
 				nontrivial := c.rErr || c.qErr || c.rRes != 0 || c.qRes != 0 || c.status != 0 || c.outLen <= 1 || c.outLen >= labi.ReqBufSize
 				if nontrivial {
@@ -291,7 +307,7 @@ func TestC15(t *testing.T) {
 				}
 				if key != "" {
 					gen.Fail(t, gen.Violation{Key: key, Oracle: oracle, Detail: c.String() + ": " + detail,
-						Replay: map[string]any{"kind": "device", "r_err": c.rErr, "q_err": c.qErr, "r_res": uint64(c.rRes), "q_res": uint64(c.qRes), "status": fmt.Sprint(c.status), "out_len": c.outLen, "valid": valid, "untouched": c.untouched}})
+						Replay: map[string]any{"kind": "device", "r_err": c.rErr, "q_err": c.qErr, "r_res": uint64(c.rRes), "q_res": uint64(c.qRes), "status": fmt.Sprint(c.status), "out_len": c.outLen, "valid": valid, "untouched": c.untouched, "err_kind": c.errKind, "err_writes": c.errWrites}})
 				}
 			}
 		}
@@ -306,10 +322,11 @@ func TestC15(t *testing.T) {
 			status:    rapid.OneOf(rapid.Just(uint64(0)), rapid.Uint64(), rapid.SampledFrom([]uint64{labi.GetQuoteInFlight, labi.GetQuoteError, labi.GetQuoteServiceUnavailable})).Draw(t, "status"),
 			outLen:    rapid.OneOf(rapid.Uint32Range(0, labi.ReqBufSize+2), rapid.Uint32()).Draw(t, "outLen"),
 			untouched: rapid.IntRange(0, 7).Draw(t, "untouched") == 0,
+			errKind:   rapid.IntRange(0, len(c15Errors)-1).Draw(t, "errKind"), errWrites: rapid.Bool().Draw(t, "errWrites"),
 		}
 		if key, oracle, detail := c15RunCell(c, s, rapid.Bool().Draw(t, "valid")); key != "" {
 			gen.Fail(t, gen.Violation{Key: key, Oracle: oracle, Detail: c.String() + ": " + detail,
-				Replay: map[string]any{"kind": "device", "r_err": c.rErr, "q_err": c.qErr, "r_res": uint64(c.rRes), "q_res": uint64(c.qRes), "status": fmt.Sprint(c.status), "out_len": c.outLen, "valid": false}})
+				Replay: map[string]any{"kind": "device", "r_err": c.rErr, "q_err": c.qErr, "r_res": uint64(c.rRes), "q_res": uint64(c.qRes), "status": fmt.Sprint(c.status), "out_len": c.outLen, "valid": false, "err_kind": c.errKind, "err_writes": c.errWrites}})
 		}
 		gen.NonTrivial("rand", c.String())
 	})
@@ -406,6 +423,10 @@ func init() {
 		var st uint64
 		fmt.Sscan(c["status"].(string), &st)
 		cell := c15Cell{untouched: c["untouched"] == true, rErr: c["r_err"] == true, qErr: c["q_err"] == true, rRes: uintptr(c["r_res"].(float64)), qRes: uintptr(c["q_res"].(float64)), status: st, outLen: uint32(c["out_len"].(float64))}
+		if ek, ok := c["err_kind"].(float64); ok {
+			cell.errKind = int(ek)
+		}
+		cell.errWrites = c["err_writes"] == true
 		if key, oracle, detail := c15RunCell(cell, gen.NewStream(1, "replay"), c["valid"] == true); key != "" {
 			return key + " (" + oracle + "): " + detail
 		}
